@@ -18,7 +18,8 @@
 (*             holding pendingMu (each send blocks while the 1-slot        *)
 (*             channel is full), then pending = {}                         *)
 (*   Ret       the call returns; deferred Put of object and tag            *)
-(* Stimuli (harness): Begin(k), Answer(j), Bad(kind, j), Close, FailWrites *)
+(* Stimuli (harness): Begin(k), Answer(j), Bad(kind, j), Close, FailWrites, *)
+(* HoldWrites, HoldReturns, ReleaseReturns                                 *)
 (***************************************************************************)
 EXTENDS Integers, Sequences, FiniteSets, TLC
 
@@ -26,7 +27,8 @@ CONSTANTS Callers,     \* 1..N, each makes one call
           Objs,        \* response objects that may ever exist
           MaxBad,      \* bound on faulty frames injected
           Twice,       \* callers that make two calls (the others make one)
-          Holds,       \* TRUE: the harness may also hold the client's writes (HoldWrites)
+          Holds,       \* subset of {"pre", "post"}: the harness may hold the client's writes before delivery
+                       \* (HoldWrites) / delay their return after delivery (HoldReturns)
           Fixed        \* findings repaired: "R14" (entry removed on failed send),
                        \*                    "R15" (a frame the client cannot accept ends the connection)
 
@@ -68,7 +70,7 @@ Init ==
   /\ pending = [t \in Tags |-> 0]
   /\ pmu = 0 /\ smu = 0 /\ token = 0 /\ frame = NoFrame
   /\ wire = <<>> /\ answered = {} /\ inbox = <<>>
-  /\ closed = FALSE /\ wfail = FALSE /\ nbad = 0 /\ whold = FALSE
+  /\ closed = FALSE /\ wfail = FALSE /\ nbad = 0 /\ whold = 0
   /\ ncall = [k \in Callers |-> 0]
   /\ last = [a |-> "init", g |-> 0, r |-> 0]
 
@@ -110,10 +112,22 @@ Close ==
   /\ L("Close", 0, 0)
   /\ UNCHANGED <<pc, tag, obj, rm, res, tagcache, tagnext, free, owner, done, pending, pmu, smu, token, frame, wire, answered, inbox, nbad, ncall, whold>>
 
-\* The client's writes block until FailWrites / Close lets them fail.
+\* whold: 0 writes go through; 1 the client's writes block (before anything is delivered) until
+\* FailWrites / Close lets them fail; 2 a write delivers its frame at once but RETURNS to the client
+\* only after ReleaseReturns (a slow transport: the server may answer before the sender resumes).
 HoldWrites ==
-  /\ Holds /\ ~whold /\ ~wfail /\ whold' = TRUE
+  /\ "pre" \in Holds /\ whold = 0 /\ ~wfail /\ whold' = 1
   /\ L("HoldWrites", 0, 0)
+  /\ UNCHANGED <<pc, tag, obj, rm, res, tagcache, tagnext, free, owner, done, pending, pmu, smu, token, frame, wire, answered, inbox, closed, wfail, nbad, ncall>>
+
+HoldReturns ==
+  /\ "post" \in Holds /\ whold = 0 /\ ~wfail /\ ~closed /\ whold' = 2
+  /\ L("HoldReturns", 0, 0)
+  /\ UNCHANGED <<pc, tag, obj, rm, res, tagcache, tagnext, free, owner, done, pending, pmu, smu, token, frame, wire, answered, inbox, closed, wfail, nbad, ncall>>
+
+ReleaseReturns ==
+  /\ whold = 2 /\ whold' = 0
+  /\ L("ReleaseReturns", 0, 0)
   /\ UNCHANGED <<pc, tag, obj, rm, res, tagcache, tagnext, free, owner, done, pending, pmu, smu, token, frame, wire, answered, inbox, closed, wfail, nbad, ncall>>
 
 FailWrites ==
@@ -148,8 +162,8 @@ SendLock(k) ==
   /\ UNCHANGED <<tag, obj, rm, res, tagcache, tagnext, free, owner, done, pending, pmu, token, frame, wire, answered, inbox, closed, wfail, nbad, ncall, whold>>
 
 Send(k) ==
-  /\ pc[k] = "send" /\ (~whold \/ wfail)
-  /\ smu' = 0
+  /\ pc[k] = "send" /\ (whold # 1 \/ wfail)
+  /\ smu' = IF ~wfail /\ whold = 2 THEN smu ELSE 0
   /\ IF wfail
      THEN /\ pc' = [pc EXCEPT ![k] = "ret"]
           /\ res' = [res EXCEPT ![k] = "err"]
@@ -157,10 +171,17 @@ Send(k) ==
           /\ done' = IF Dev("R14") THEN done ELSE [done EXCEPT ![obj[k]] = "empty"]    \* (fixed) drained
           /\ UNCHANGED wire
      ELSE /\ wire' = Append(wire, [k |-> 10 * ncall[k] + k, tag |-> tag[k]])      \* request id = (call number, caller)
-          /\ pc' = [pc EXCEPT ![k] = "wait"]
+          /\ pc' = [pc EXCEPT ![k] = IF whold = 2 THEN "sent" ELSE "wait"]
           /\ UNCHANGED <<res, pending, done>>
   /\ L("Send", k, 0)
   /\ UNCHANGED <<tag, obj, rm, tagcache, tagnext, free, owner, pmu, token, frame, answered, inbox, closed, wfail, nbad, ncall, whold>>
+
+\* the frame is out, Write has not returned yet (sendMu still held)
+SendRet(k) ==
+  /\ pc[k] = "sent" /\ (whold # 2 \/ wfail \/ closed)
+  /\ smu' = 0 /\ pc' = [pc EXCEPT ![k] = "wait"]
+  /\ L("SendRet", k, 0)
+  /\ UNCHANGED <<tag, obj, rm, res, tagcache, tagnext, free, owner, done, pending, pmu, token, frame, wire, answered, inbox, closed, wfail, nbad, ncall, whold>>
 
 \* waitAndRecv: outer select
 WaitDone(k) ==
@@ -248,12 +269,12 @@ Ret(k) ==
   /\ L("Ret", k, 0)
   /\ UNCHANGED <<tag, obj, rm, res, tagnext, done, pending, pmu, smu, token, frame, wire, answered, inbox, closed, wfail, nbad, ncall, whold>>
 
-Internal(k) == Start(k) \/ SendLock(k) \/ Send(k) \/ WaitDone(k) \/ WaitToken(k) \/ Tok(k) \/ Recv(k)
+Internal(k) == Start(k) \/ SendLock(k) \/ Send(k) \/ SendRet(k) \/ WaitDone(k) \/ WaitToken(k) \/ Tok(k) \/ Recv(k)
                \/ Deliver(k) \/ Bcast(k) \/ Ret(k)
 
 Stimulus == \/ \E k \in Callers : Begin(k)
             \/ \E i \in 1..Len(wire) : Answer(i) \/ Bad("badtype", i) \/ Bad("badbody", i) \/ Bad("cut", i)
-            \/ Bad("badtag", 0) \/ Bad("garbage", 0) \/ Close \/ FailWrites \/ HoldWrites
+            \/ Bad("badtag", 0) \/ Bad("garbage", 0) \/ Close \/ FailWrites \/ HoldWrites \/ HoldReturns \/ ReleaseReturns
 
 Next == Stimulus \/ \E k \in Callers : Internal(k)
 Spec == Init /\ [][Next]_vars /\ \A k \in Callers : WF_vars(Internal(k))
@@ -261,7 +282,7 @@ Spec == Init /\ [][Next]_vars /\ \A k \in Callers : WF_vars(Internal(k))
 -----------------------------------------------------------------------------
 (* Properties (C10) *)
 
-Active(k) == pc[k] \in {"sendlock", "send", "wait", "tok", "recv", "deliver", "bcast", "ret"}
+Active(k) == pc[k] \in {"sendlock", "send", "sent", "wait", "tok", "recv", "deliver", "bcast", "ret"}
 
 \* outstanding tags are pairwise distinct and never the sentinel
 DistinctTags == \A a, b \in Callers : (a # b /\ Active(a) /\ Active(b)) => (tag[a] # tag[b] /\ tag[a] # NoTag)
@@ -286,7 +307,8 @@ Returns ==
 CanStep(k) ==
   \/ pc[k] = "start" /\ pmu = 0
   \/ pc[k] = "sendlock" /\ smu = 0
-  \/ pc[k] = "send" /\ (~whold \/ wfail)
+  \/ pc[k] = "send" /\ (whold # 1 \/ wfail)
+  \/ pc[k] = "sent" /\ (whold # 2 \/ wfail \/ closed)
   \/ pc[k] = "wait" /\ (done[obj[k]] # "empty" \/ token = 0)
   \/ pc[k] = "tok"
   \/ pc[k] = "recv" /\ pmu = 0 /\ (inbox # <<>> \/ closed)
@@ -300,7 +322,7 @@ Quiescent == \A k \in Callers : ~CanStep(k)
 NoHang ==
   Quiescent =>
     \A k \in Callers :
-      pc[k] \in {"idle", "done"} \/ (whold /\ ~wfail /\ pc[k] \in {"send", "sendlock"}) \/
+      pc[k] \in {"idle", "done"} \/ (whold # 0 /\ ~wfail /\ pc[k] \in {"send", "sendlock", "sent"}) \/
       (~closed /\ \E i \in 1..Len(wire) : wire[i].k = 10 * ncall[k] + k /\ i \notin answered /\ pc[k] \in {"wait", "recv"})
 
 =============================================================================
